@@ -199,9 +199,18 @@ def eval_shards(root, files, jobs=16):
     pending = list(files)
     running = []
 
+    def big_stack():
+        import resource
+        try:
+            soft, hard = resource.getrlimit(resource.RLIMIT_STACK)
+            resource.setrlimit(resource.RLIMIT_STACK, (hard, hard))
+        except (ValueError, OSError):
+            pass
+
     def start(f):
         return (f, subprocess.Popen(["timeout", "900", "coqc", "-noglob", "-Q", os.path.join(root, "coq"), "WT", f],
-                                    cwd=os.path.dirname(f), stdout=subprocess.PIPE, stderr=subprocess.STDOUT, text=True))
+                                    cwd=os.path.dirname(f), stdout=subprocess.PIPE, stderr=subprocess.STDOUT, text=True,
+                                    preexec_fn=big_stack))
 
     while pending or running:
         while pending and len(running) < jobs:
